@@ -396,6 +396,10 @@ func main() {
 	defer out.Flush()
 	r := gen.New()
 	thorough := gen.Thorough()
+	if os.Getenv("VERIF_C02_ONLY") == "unkcodec" {
+		unkCodecCases()
+		return
+	}
 	corpus()
 	corpus2()
 	nFetch, nIter := 600, 150
@@ -447,6 +451,7 @@ func main() {
 	readVsCases(thorough)
 	growCases(thorough)
 	chunkCases(thorough)
+	unkCodecCases()
 	expiredCases(r, thorough)
 	readerCases(r, thorough)
 }
